@@ -39,6 +39,9 @@ func (g *Generator) generateSpecificEnum(enumType string, enumValues []enum) []j
 	cases := make([]jen.Code, len(enumValues))
 	for i, id := range enumValues {
 		name := goify(id.Name, true)
+		if name == typeID {
+			name += "Obj" // constructor named exactly like its type, same rule as for structs
+		}
 
 		opc[i] = jen.Id(name).Id(typeID).Op("=").Id(fmt.Sprintf("%#v", id.CRC))
 		cases[i] = jen.Case(jen.Id(typeID).Call(jen.Id(fmt.Sprintf("%#v", id.CRC)))).Block(jen.Return(jen.Lit(id.Name)))
